@@ -301,6 +301,217 @@ def helper_positions(repo, c, hname, slots):
     return out
 
 
+def sentinel_indexes_guarded(repo, rep, prims, models):
+    """R13.15: an index method that answers "no such bin" with a negative sentinel (`return -1`) must never be used unguarded as a
+    position in a list of children: Python wraps a negative position around to the last bin.  Accepted guards around the
+    subscript (same call text, or the local holding the result): `i in self.indexes/range(...)`, `i >= 0`, `i > -1`, `i != -1`,
+    `0 <= i ...`, or the else side of `i < 0` / `i == -1` / `i not in ...`."""
+    r15 = rep.rule("R13.15", "a bin index that may be the negative 'no bin' sentinel is range-checked before it addresses a list of children", floor=1)
+    for c in prims:
+        if c.name not in BINNED:
+            continue
+        m = models[c.name]
+        list_slots = {s0 for s0, k in m.slot_kind.items() if k != "dict"}
+        sentinels = set()
+        for f in c.methods.values():
+            for n in walk_local_stmt(f.node):
+                if isinstance(n, ast.Return) and isinstance(n.value, ast.UnaryOp) and isinstance(n.value.op, ast.USub) and isinstance(n.value.operand, ast.Constant):
+                    sentinels.add(f.name)
+        if not sentinels or not list_slots:
+            continue
+        for f in c.methods.values():
+            if f.name in ("fill", "_numpy") or not f.params:
+                continue
+            sn = f.params[0]
+
+            def is_sentinel_call(e):
+                return isinstance(e, ast.Call) and isinstance(e.func, ast.Attribute) and isinstance(e.func.value, ast.Name) and e.func.value.id == sn and e.func.attr in sentinels
+
+            # locals holding (lists of) sentinel results
+            holders, list_holders = set(), set()
+            changed = True
+            while changed:
+                changed = False
+                for n in ast.walk(f.node):
+                    tg = val = None
+                    if isinstance(n, ast.Assign) and len(n.targets) == 1 and isinstance(n.targets[0], ast.Name):
+                        tg, val = n.targets[0].id, n.value
+                        if is_sentinel_call(val) or (isinstance(val, ast.Name) and val.id in holders):
+                            if tg not in holders:
+                                holders.add(tg)
+                                changed = True
+                        if isinstance(val, (ast.ListComp, ast.GeneratorExp)) and (is_sentinel_call(val.elt) or (isinstance(val.elt, ast.Name) and val.elt.id in holders)):
+                            if tg not in list_holders:
+                                list_holders.add(tg)
+                                changed = True
+                        if isinstance(val, ast.Call) and isinstance(val.func, ast.Name) and val.func.id in ("map", "list") and any(
+                                (isinstance(x, ast.Attribute) and isinstance(x.value, ast.Name) and x.value.id == sn and x.attr in sentinels) or (isinstance(x, ast.Name) and x.id in list_holders)
+                                for a0 in val.args for x in ast.walk(a0)):
+                            if tg not in list_holders:
+                                list_holders.add(tg)
+                                changed = True
+                    if isinstance(n, (ast.For, ast.comprehension)) and isinstance(n.target, ast.Name) and isinstance(n.iter, ast.Name) and n.iter.id in list_holders:
+                        if n.target.id not in holders:
+                            holders.add(n.target.id)
+                            changed = True
+            pm = {}
+            for n in ast.walk(f.node):
+                for ch in ast.iter_child_nodes(n):
+                    pm[ch] = n
+
+            def excludes(test, key, positive):
+                if isinstance(test, ast.BoolOp):
+                    if isinstance(test.op, ast.And) and positive:
+                        return any(excludes(v, key, True) for v in test.values)
+                    if isinstance(test.op, ast.Or) and not positive:
+                        return any(excludes(v, key, False) for v in test.values)
+                    return False
+                if isinstance(test, ast.UnaryOp) and isinstance(test.op, ast.Not):
+                    return excludes(test.operand, key, not positive)
+                if not isinstance(test, ast.Compare):
+                    return False
+                items = [test.left] + list(test.comparators)
+                for i, op in enumerate(test.ops):
+                    l, r = items[i], items[i + 1]
+                    lt, rt = ast.unparse(l), ast.unparse(r)
+
+                    def const(e):
+                        try:
+                            v = ast.literal_eval(e)
+                            return v if isinstance(v, (int, float)) and not isinstance(v, bool) else None
+                        except Exception:
+                            return None
+                    if lt == key:
+                        cv = const(r)
+                        if positive:
+                            if isinstance(op, ast.In):
+                                return True
+                            if cv is not None and ((isinstance(op, ast.GtE) and cv >= 0) or (isinstance(op, ast.Gt) and cv >= -1) or (isinstance(op, ast.NotEq) and cv == -1)):
+                                return True
+                        else:
+                            if isinstance(op, ast.NotIn):
+                                return True
+                            if cv is not None and ((isinstance(op, ast.Lt) and cv >= 0) or (isinstance(op, ast.LtE) and cv >= -1) or (isinstance(op, ast.Eq) and cv == -1)) and len(test.ops) == 1:
+                                return True
+                    if rt == key:
+                        cv = const(l)
+                        if positive and cv is not None and ((isinstance(op, ast.LtE) and cv >= 0) or (isinstance(op, ast.Lt) and cv >= -1) or (isinstance(op, ast.NotEq) and cv == -1)):
+                            return True
+                        if not positive and cv is not None and len(test.ops) == 1 and ((isinstance(op, ast.Gt) and cv >= 0) or (isinstance(op, ast.GtE) and cv >= -1) or (isinstance(op, ast.Eq) and cv == -1)):
+                            return True
+                return False
+
+            def guarded(node, key):
+                cur = node
+                while cur in pm:
+                    par = pm[cur]
+                    if isinstance(par, ast.IfExp) and cur is not par.test and excludes(par.test, key, cur is par.body):
+                        return True
+                    if isinstance(par, ast.If) and cur is not par.test and excludes(par.test, key, any(x is cur for x in par.body)):
+                        return True
+                    if isinstance(par, ast.BoolOp) and cur in par.values:
+                        for prev in par.values[:par.values.index(cur)]:
+                            if excludes(prev, key, isinstance(par.op, ast.And)):
+                                return True
+                    if isinstance(par, (ast.ListComp, ast.GeneratorExp, ast.SetComp, ast.DictComp)) and any(cur is x for x in ([par.elt] if not isinstance(par, ast.DictComp) else [par.key, par.value])):
+                        if any(excludes(t, key, True) for g0 in par.generators for t in g0.ifs):
+                            return True
+                    # early exits before the statement: `if i < 0: return/continue/raise`
+                    if isinstance(par, (ast.FunctionDef, ast.For, ast.While, ast.If, ast.With, ast.Try)):
+                        for fld in ("body", "orelse", "finalbody"):
+                            blk = getattr(par, fld, None)
+                            if isinstance(blk, list) and any(x is cur for x in blk):
+                                for prev in blk[:[i for i, x in enumerate(blk) if x is cur][0]]:
+                                    if isinstance(prev, ast.If) and not prev.orelse and prev.body and isinstance(prev.body[-1], (ast.Return, ast.Continue, ast.Raise, ast.Break)) \
+                                            and excludes(prev.test, key, False):
+                                        return True
+                    cur = par
+                return False
+
+            for n in ast.walk(f.node):
+                if not (isinstance(n, ast.Subscript) and isinstance(n.ctx, ast.Load) and not isinstance(n.slice, ast.Slice)):
+                    continue
+                b = n.value
+                if not (isinstance(b, ast.Attribute) and isinstance(b.value, ast.Name) and b.value.id == sn and b.attr in list_slots):
+                    continue
+                idx = n.slice
+                if isinstance(idx, ast.Name):
+                    # a comprehension variable is scoped to its comprehension: decide by the generator that binds it
+                    cur, gen = n, None
+                    while cur in pm and gen is None:
+                        cur = pm[cur]
+                        if isinstance(cur, (ast.ListComp, ast.GeneratorExp, ast.SetComp, ast.DictComp)):
+                            gen = next((g0 for g0 in cur.generators if any(isinstance(x, ast.Name) and x.id == idx.id for x in ast.walk(g0.target))), None)
+                    if gen is not None:
+                        is_holder = (isinstance(gen.iter, ast.Name) and gen.iter.id in list_holders) or (
+                            isinstance(gen.iter, (ast.ListComp, ast.GeneratorExp)) and is_sentinel_call(gen.iter.elt))
+                        if not is_holder:
+                            continue
+                if not (is_sentinel_call(idx) or (isinstance(idx, ast.Name) and idx.id in holders)):
+                    continue
+                rep.analysed_functions.add(f.construct)
+                key = ast.unparse(idx)
+                ok = guarded(n, key)
+                r15.ob(ok, f"{f.qualname}: `{ast.unparse(n)[:50]}` behind a range check of `{key}`")
+                if not ok:
+                    which = idx.func.attr if isinstance(idx, ast.Call) else "/".join(sorted(sentinels))
+                    rep.finding("R13.15", f, n, f"`{ast.unparse(n)[:60]}`: `{key}` comes from {c.name}.{which}(), which answers -1 for a value in no regular bin, "
+                                f"and no enclosing test excludes the negative value (`{key} in self.indexes`, `{key} >= 0`, ...): position -1 is the LAST bin, "
+                                f"so a query outside [low, high) - or NaN - is reported with the last bin's content instead of none",
+                                stmt=f"sentinel index {key} addresses {b.attr} unguarded")
+
+
+def adjacent_edges_identical(repo, rep, prims):
+    """R13.16: range(index) returns (E(index), E(index + 1)) for ONE floating-point expression E: the upper edge of a bin and the lower
+    edge of its right neighbour are then the same double.  Mathematically equal but differently associated expressions (low + width)
+    differ by an ulp, and the 2-D grids deduplicate edges with np.unique: every non-shared edge becomes an extra grid line."""
+    from .c03 import _canon_float
+    r16 = rep.rule("R13.16", "range(i) = (E(i), E(i+1)) for one float expression E (adjacent bins share their edge exactly)", floor=1)
+
+    class Sub(ast.NodeTransformer):
+        def __init__(self, env):
+            self.env = env
+
+        def visit_Name(self, n):
+            if isinstance(n.ctx, ast.Load) and n.id in self.env:
+                import copy
+                return copy.deepcopy(self.env[n.id])
+            return n
+
+    import copy
+    for c in prims:
+        if c.name not in BINNED:
+            continue
+        f = c.methods.get("range")
+        if f is None or len(f.params) != 2:
+            continue
+        ip = f.params[1]
+        env = {}
+        straight = True
+        rets = []
+        for st in f.node.body:
+            if isinstance(st, ast.Expr) and isinstance(st.value, ast.Constant):
+                continue
+            if isinstance(st, ast.Assign) and len(st.targets) == 1 and isinstance(st.targets[0], ast.Name):
+                env[st.targets[0].id] = Sub(env).visit(copy.deepcopy(st.value))
+            elif isinstance(st, ast.Return) and isinstance(st.value, ast.Tuple) and len(st.value.elts) == 2:
+                rets.append((st, [Sub(env).visit(copy.deepcopy(e)) for e in st.value.elts]))
+            else:
+                straight = False
+        if not straight or not rets or ip in env:
+            continue        # not the affine straight-line form (CentrallyBin: midpoints of neighbouring centres)
+        rep.analysed_functions.add(f.construct)
+        for st, (lo, hi) in rets:
+            nxt = Sub({ip: ast.BinOp(left=ast.Name(id=ip, ctx=ast.Load()), op=ast.Add(), right=ast.Constant(value=1))}).visit(copy.deepcopy(lo))
+            ok = _canon_float(nxt) == _canon_float(hi)
+            r16.ob(ok, f"{c.name}.range: upper edge {ast.unparse(hi)[:60]} is the lower edge at {ip}+1")
+            if not ok:
+                rep.finding("R13.16", f, st, f"{c.name}.range({ip}) returns the upper edge `{ast.unparse(hi)[:70]}`, which is not the lower-edge expression "
+                            f"`{ast.unparse(lo)[:60]}` taken at {ip}+1: the two are rounded differently, so the upper edge of bin i and the lower edge of bin i+1 "
+                            f"differ in the last bit for non-dyadic widths - xy_ranges_grid (np.unique over these edges) then reports more edges than bins + 1",
+                            stmt=f"{c.name}.range: adjacent edges not the same expression")
+
+
 def run(repo, rep, tier):
     # these rules reason with helper calls as atoms (the same call = the same value; "reaches the routing function"), so they read the
     # sources WITHOUT helper inlining; the shared rules of C06 run on the inlined view
@@ -478,6 +689,10 @@ def run(repo, rep, tier):
                                         f"({sorted(x.id for p2 in parts for x in ast.walk(p2) if isinstance(x, ast.Name) and x.id in tainted)}), not "
                                         f"by one of {c.name}'s own index methods: ties, NaN and +-inf are then resolved differently from fill, "
                                         f"so the reported bin is not the bin the datum was filled into", stmt=f"{an}: inline index {ast.unparse(idx)[:40]}")
+    # ---------------- R13.15
+    sentinel_indexes_guarded(repo, rep, prims, _models)
+    # ---------------- R13.16
+    adjacent_edges_identical(repo, rep, prims)
     # ---------------- R13.3
     for c in prims:
         if c.name not in BINNED:
